@@ -3,6 +3,7 @@ from inspect import BoundArguments
 from inspect import Parameter
 from inspect import Signature
 from inspect import iscoroutinefunction
+from inspect import unwrap
 from itertools import chain
 from types import MethodType
 from typing import Any
@@ -11,16 +12,19 @@ from typing import Any
 def _make_key(method):
     method = method.func if isinstance(method, partial) else method
     method = method.fget if isinstance(method, property) else method
+    # the signature follows `__wrapped__`: decorated callables share the decorator's code object
+    wrapped_code = getattr(unwrap(method), "__code__", None)
     if isinstance(method, MethodType):
         return hash(
             (
                 method.__qualname__,
                 method.__self__.__class__.__name__,
                 method.__code__,
+                wrapped_code,
             )
         )
     else:
-        return hash((method.__qualname__, method.__code__))
+        return hash((method.__qualname__, method.__code__, wrapped_code))
 
 
 def signature_cache(user_function):
